@@ -8,7 +8,7 @@ PROPS = {
                        "necessary conditions of C13: no false verdict is dropped between do_validate/do_compile/visit_ucg_files "
                        "and the exit status (R57), the assertion collector shared through the Environment is re-initialised "
                        "per file (R58), every path through the assert hook records a result with the right polarity (R59), and "
-                       "verdict polarity / exit(1) wiring (R60). Not decided: the printed text.",
+                       "verdict polarity / exit(1) wiring (R60). Not decided: the printed text. Added later: R57 Err edges, R58e (build evaluates the file).",
         "assumptions": ["rustc MIR construction and callee resolution (Instance::try_resolve)",
                         "panicking paths are not normal exits (covered by C04)"],
     },
@@ -19,7 +19,7 @@ PROPS = {
                        "guards every conversion/creation (R50), the created path is <source>.with_extension(file_ext()) of the "
                        "selected converter (R51), `out` and `convert` run the same registry converter on the same popped value "
                        "and do not post-process the bytes (R52); the registry/extension table is enumerated (R87b). "
-                       "Not decided: byte equality as a value, I/O faults during write_all.",
+                       "Not decided: byte equality as a value, I/O faults during write_all. Added later: R49t, R49w (a successful out writes unless the whole old file is identical), R50r (who may release the out lock), R48k (lock keys agree), R51s (no symlink resolution in the artifact path).",
         "assumptions": ["std::fs::File::create / OpenOptions / fs::write are the only ways the hook creates files",
                         "a partially failed write_all (I/O fault) is outside the property's quantifier"],
     },
@@ -31,7 +31,7 @@ PROPS = {
                        "(FileBuilder::build, Builtins::import) to the file's evaluation; the memo discipline of the op, value "
                        "and shape caches is checked on the CFG (R48m: insert only on the vacant/miss edge after success, never "
                        "shrunk); R57 (verdict propagation) covers `build -r`. Not decided: byte equality of artifacts; "
-                       "positions stored inside cached import shapes.",
+                       "positions stored inside cached import shapes. Added later: R48k (the three out-lock functions and the import hook's call sites agree on the key).",
         "assumptions": ["state that outlives a file lives in Environment (statics: only the reserved-word LazyLock, immutable)",
                         "the repl is outside the property's quantifier"],
     },
@@ -42,7 +42,7 @@ PROPS = {
                        "unknown type / decoder error end in a build error and `include str` pushes the text unchanged (R55), "
                        "as_i64 precedes the float fallback in the json/yaml importers and toml Integer -> Int (R56), the "
                        "importer registry and the two base64 alphabets are enumerated (R87). Not decided: the decoders "
-                       "themselves (serde_json, serde_yaml, toml, base64).",
+                       "themselves (serde_json, serde_yaml, toml, base64). Added later: R56 on provenance (Int payload never through the f64 view), R55w (decode to the end of the input).",
         "assumptions": ["serde_json/serde_yaml/toml/base64 decode and encode correctly"],
     },
     "C18": {
@@ -53,7 +53,7 @@ PROPS = {
                        "SafeIndex true, the safe edge yields NULL and the strict edge an error (R45); std::env::vars is read once "
                        "in main and flows only into the Environment, env_vars has no later writer, the env tuple is built from it "
                        "alone and a local symbol named env wins (R46); `env` aborts both binding forms in the parser (R47). "
-                       "Not decided: the values of variables as strings (OS encoding).",
+                       "Not decided: the values of variables as strings (OS encoding). Added later: R45s (strictness handed down unchanged to every function that stores or forwards a strict flag).",
         "assumptions": ["Value::type_name returns a &'static str that names the kind only (checked: body has only constant arms)"],
     },
     "C10": {
@@ -63,7 +63,7 @@ PROPS = {
                        "constraint statement and Bind/BindOver map to op_bind(true/false) (R30), closures carry a snapshot taken at "
                        "definition and calls are scoped with it alone, child scopes copy nothing back (R31), module bodies run in a "
                        "clean copy with only `mod` bound (R32), `env` and every tokenizer keyword are refused as binding names "
-                       "(R47, R35 exhaustive over the keyword recognisers). Not decided: value equality of prefix runs.",
+                       "(R47, R35 exhaustive over the keyword recognisers). Not decided: value equality of prefix runs. Added later: R29 follows the reserved-word test into the callers of binding_push.",
         "assumptions": ["Rc<Value> values are immutable once built (no interior mutability in Value: checked by R28's field inventory of Stack only)"],
     },
     "C09": {
@@ -74,7 +74,7 @@ PROPS = {
                        "and of the checker's resolve_import on the CFG (normalise, cache, cycle test, in-progress mark before run, "
                        "cache after run). R27: std::env::current_dir unreachable from the import/include/translate/check paths "
                        "(call graph). R68: rewriter arms and provenance of its base directory. Not decided: filesystem behaviour, "
-                       "equality of values across builds; format template expressions are parsed after the rewrite (noted).",
+                       "equality of values across builds; format template expressions are parsed after the rewrite (noted). Added later: R25p, R26c normalised keys and child directory, R26l (link_ops), R26v (every nested VM run gets the import stack), R27n (normalize is total), R68 helper-aware with import-only std exemption and late-parsed format expressions.",
         "assumptions": ["the parser never stores an import inside CallDef.funcref / CopyDef.selector (Value from a selector)"],
     },
     "C08": {
@@ -85,7 +85,7 @@ PROPS = {
                        "first). R23: no success return inside any per-field/per-item loop. R24 (exhaustive over Val variants, "
                        "per-variant path analysis): the env converter never writes NAME= without value and newline; separators of all "
                        "writes. Not decided: what /bin/sh reconstructs (POSIX quoting rules are the trusted base); field names are "
-                       "written raw (the property speaks of values).",
+                       "written raw (the property speaks of values). Added later: R22 also refuses any rewriting of the quoted text outside the helper.",
         "assumptions": ["POSIX: inside '..' only ' is special and '\\'' yields it; inside \"..\" exactly \\ \" $ ` are special"],
     },
     "C03": {
@@ -95,7 +95,7 @@ PROPS = {
                        "variants the format cannot represent, non-finite float -> Err in JSON. R64: every loop iteration adds the "
                        "element or fails the conversion; append-only forward iteration. R12: `---` before every yamlmulti document. "
                        "R70: no Val payload hand-formatted into the output. Not decided: that serde_json / serde_yaml / toml emit "
-                       "valid text that an independent decoder reads back.",
+                       "valid text that an independent decoder reads back. Added later: R12b (the YAML text is exactly the serializer's document), R64 on iterator pipelines, R64v (value lowering keeps every field and element), R49t (artifact opened truncating).",
         "assumptions": ["serde_json, serde_yaml and toml serialise their own value types correctly"],
     },
     "C12": {
@@ -104,7 +104,7 @@ PROPS = {
                        "R69: start/end element pairing on every successful path. R62: error table per Val variant and for missing "
                        "root, bad version, name+text. R90: namespace and version tables. R63: NULL parts are skipped before any "
                        "getter / attr(). Not decided: escaping, namespace prefixing and indentation behaviour of xml-rs; equality "
-                       "of the re-parsed tree; a root tuple without name and text writes nothing (noted in DESIGN.md).",
+                       "of the re-parsed tree; a root tuple without name and text writes nothing (noted in DESIGN.md). Added later: R62 name-and-text decided path-sensitively, R69v (strings verbatim), R63e (is_empty true for NULL only).",
         "assumptions": ["xml-rs escapes markup-significant characters in characters() and attribute values"],
     },
     "C02": {
@@ -115,7 +115,7 @@ PROPS = {
                        "their polarity, the recursive minimum and the start level. R7: no branch on operands. R8 (exhaustive): printer "
                        "and parser operator tables are inverse. R9 (exhaustive): the five classifiers partition the 18 operators. "
                        "With these the grouping function is fixed up to the correctness of the textbook climbing loop; parenthesised "
-                       "groups are Grouped operands (R7).",
+                       "groups are Grouped operands (R7). Added later: R6o (every operand of a chain is parsed with non_op_expression); R6 follows a level hoisted into a local.",
         "assumptions": ["the precedence-climbing algorithm itself (Dijkstra / Richards) is correct given the two comparisons"],
         "technique": "static analysis: table agreement (MIR constants vs reference document), comparison-operator rules on MIR",
     },
@@ -127,7 +127,7 @@ PROPS = {
                        "u8->char cast reaches token text. R73: every Token's pos comes from Position::from of an unconsumed clone of "
                        "the recogniser's input (59 sites). R74: WS/COMMENT never pushed to the output. R86 (exhaustive): escape table = "
                        "documented escapes. Not decided: column semantics for non-ASCII text (byte columns), token-stream equality "
-                       "across layouts as a whole; keyword-like prefixes of words (`truex`, `NULLx`) are noted, not claimed.",
+                       "across layouts as a whole; keyword-like prefixes of words (`truex`, `NULLx`) are noted, not claimed. Added later: R74l (no parser function compares token positions).",
         "assumptions": ["abortable_parser's text_token! consumes exactly the literal it is given"],
     },
     "C06": {
@@ -140,7 +140,7 @@ PROPS = {
                        "the two listed paths, checker records a narrow TypeErr and a non-empty error stack stops the build. R20: named "
                        "constraints go through the same lowering and are expanded before comparison. R66: subset test in both "
                        "directions. Not decided: the shape-compatibility relation (narrow) itself; recursive constraints are outside "
-                       "the property's quantifier.",
+                       "the property's quantifier. Added later: R66s (list subset false only from the element loop), R18e (equality compares lengths), R20m (memo hit needs exact equality), R19n (module nesting is counted); R19 reports the two unchecked bypasses (F35, F39 known).",
         "assumptions": ["Val::equal is structural equality (unit-tested)"],
     },
     "C07": {
@@ -150,7 +150,7 @@ PROPS = {
                        "Shape variants have a path that does not return TypeErr), by per-variant path analysis; required: VM set "
                        "(mapped kind -> shape) is a subset of the checker set. R21a: map/filter/reduce targets; R21b: the forms the "
                        "translator lowers after `.` on a tuple / resolved import; R21c: copy bases and `not`. Not decided: "
-                       "completeness of the checker in general (value-level rules of narrow, e.g. `[1] + [\"a\"]`).",
+                       "completeness of the checker in general (value-level rules of narrow, e.g. `[1] + [\"a\"]`). Added later: R21b for partly known left shapes, R21h (F33 known), R21p (with_pos preserves variant and kind of knowledge), R25p (visit/leave pairing).",
         "assumptions": ["runtime kind -> Shape variant map of impl DeriveShape for Value (List->List, Tuple->Tuple, Str->Str)"],
     },
     "C17": {
@@ -161,7 +161,7 @@ PROPS = {
                        "caller's position on the Err edge. R39: provenance of the position of every Error::new in vm.rs/runtime.rs "
                        "from an operand / parameter / op pointer; inventory of Position::new users. R92: line/column/offset wiring "
                        "from the input iterator through parser errors to the printed diagnostic. Not decided: that the reported line "
-                       "lies inside the right statement for a given input; errors inside imported files.",
+                       "lies inside the right statement for a given input; errors inside imported files. Added later: R38 frame-position and result-position provenance (also through a forwarding helper), R39c (checker mismatches are anchored where the operands meet).",
         "assumptions": ["abortable_parser's line()/column() count from the start of the input"],
     },
     "C01": {
@@ -174,7 +174,7 @@ PROPS = {
                        "evaluation of every jump patch (idx = len_a - 1, offset = len_b - len_a) plus jump arithmetic and short-circuit "
                        "polarity in the VM; R4 exhaustive translation; R84 range bounds; R85 the `is` type-name table against the "
                        "reference. Not decided: values computed by arbitrary programs (that needs an independent evaluator, a dynamic "
-                       "oracle).",
+                       "oracle). Added later: R3s (PushSelf/PopSelf bracket, unconditional push/pop), R3t (the translator compiles every child of every node on every path), R31 of C10 (scope snapshots).",
         "assumptions": ["the semantic table (left - right, text ~ pattern, item in container, container . key) is the reference's"],
         "technique": "static analysis: provenance composition translator/VM over MIR, linear forms for jump offsets, table agreement",
     },
@@ -188,7 +188,7 @@ PROPS = {
                        "invariant class; a new site is unlisted and reported. R80: arity check dominating every callback call. R76/R77/R78: "
                        "structural termination of the grammar (nullable / first-set analysis of the extracted grammar), the tokenizer and "
                        "the VM dispatch (forward jumps only). Not decided: running time, stack depth as a function of nesting, user-level "
-                       "recursion; the translator-stack class (no VM stack underflow) is an assumption premised on R80.",
+                       "recursion; the translator-stack class (no VM stack underflow) is an assumption premised on R80. Added later: R13p (printer indentation never underflows, by abstract interpretation), R81c (consistent net stack effect per VM handler), R98 (recursion through a name table is cut by an in-progress mark and threads one memo), R76x (re-parse multiplicity of bracketed constructs; reports F40).",
         "assumptions": ["translator-stack invariant: every opcode pops what the translator pushed before it (premised on R80, R4, R1; not proved)",
                         "panics inside dependencies on well-typed arguments are out of scope", "unwinding allocation failure is out of scope"],
         "technique": "static analysis: call-graph reachability + panic-site enumeration over MIR with CFG guard idioms; grammar nullability",
@@ -205,7 +205,7 @@ PROPS = {
                        "names are single barewords for the tokenizer. R79/R79t: pending comment groups are printed once, in key order, "
                        "flushed at the end, and a comment line's layout is decided on the text printed. R8: operator spellings. Not "
                        "decided: comment placement relative to nodes, blank-line policy, idempotence of layout for comments inside "
-                       "expressions, numeric value of floats after Display.",
+                       "expressions, numeric value of floats after Display. Added later: R15p (float literals are finite), R79m (a fresh comment map per file).",
         "assumptions": ["sentence forms are bounded: collections up to 3 elements on both sides (the rules have no counting behaviour)",
                         "node shapes the parser cannot produce are outside the property (one table entry, re-verified against the grammar)",
                         "Display for f64 prints digits the tokenizer reads back to the same value (std property, not checked)"],
@@ -219,7 +219,7 @@ PROPS = {
                        "else; analyze cannot see the documents map. R42: analyze uses the compiler's tokenize and parse, exactly one "
                        "diagnostic per front-end error from the error's own position. R89: provenance of everything written into the "
                        "workspace cache. Not decided: range containment (UTF-16 vs byte columns), equality of diagnostics with a fresh "
-                       "server as values, messages with malformed parameters (they end the server with an error, outside the quantifier).",
+                       "server as values, messages with malformed parameters (they end the server with an error, outside the quantifier). Added later: R41 for the workspace index (every update replaces the entry), R76x (F40 known).",
         "assumptions": ["lsp-server / lsp-types / serde_json do not panic on well-formed messages"],
     },
 }
